@@ -1,4 +1,5 @@
 import GA.Proofs.Lexical
+import GA.Proofs.PathLemmas
 /-
   Invariants of a symlink-free world under the file-system primitives: no symbolic link appears
   unless one is created, and the destination stays a directory.
@@ -265,5 +266,65 @@ theorem dirKept_removeBelow (dp : Path) (fs : FS) (q : Path) (hu : under dp q = 
           exact he (prefix_antisymm hu hq)
       simp [this]
   · exact fun h => h
+
+/-! ### every component of every name is an ordinary name (no "", ".", "..", no "/") -/
+
+def NameWF (fs : FS) : Prop := ∀ p i, fs.lookup p = some i → ∀ c ∈ p, Norm c
+
+theorem NameWF.modInode {fs : FS} (h : NameWF fs) (i : Ino) (f : Inode → Inode) : NameWF (fs.modInode i f) := by
+  intro p j hp; rw [lookup_modInode] at hp; exact h p j hp
+
+theorem NameWF.setInode {fs : FS} (h : NameWF fs) (i : Ino) (n : Inode) : NameWF (fs.setInode i n) :=
+  fun p j hp => h p j hp
+
+theorem NameWF.touchParent {fs : FS} (h : NameWF fs) (q : Path) : NameWF (fs.touchParent q) := by
+  unfold FS.touchParent; split
+  · exact h.modInode _ _
+  · exact h
+
+theorem NameWF.create {fs : FS} (h : NameWF fs) (q : Path) (n : Inode) (hn : fs.lookup q = none)
+    (hq : ∀ c ∈ q, Norm c) : NameWF (fs.create q n) := by
+  unfold FS.create
+  apply NameWF.touchParent
+  intro p j hp
+  have hp' : ({ fs with names := fs.names ++ [(q, fs.next)] } : FS).lookup p = some j := hp
+  rw [lookup_append_new fs q fs.next hn p] at hp'
+  split at hp'
+  · rename_i e; rw [e]; exact hq
+  · exact h p j hp'
+
+theorem NameWF.addName {fs : FS} (h : NameWF fs) (q : Path) (i : Ino) (hn : fs.lookup q = none)
+    (hq : ∀ c ∈ q, Norm c) : NameWF (fs.addName q i) := by
+  unfold FS.addName
+  apply NameWF.touchParent
+  intro p j hp
+  rw [lookup_append_new fs q i hn p] at hp
+  split at hp
+  · rename_i e; rw [e]; exact hq
+  · exact h p j hp
+
+theorem NameWF.filter {fs : FS} (h : NameWF fs) (keep : Path → Bool) :
+    NameWF ({ fs with names := fs.names.filter (fun e => keep e.1) } : FS) := by
+  intro p j hp
+  rw [lookup_filterNames] at hp
+  split at hp
+  · exact h p j hp
+  · cases hp
+
+theorem NameWF.removeSubtree {fs : FS} (h : NameWF fs) (q : Path) : NameWF (fs.removeSubtree q) := by
+  unfold FS.removeSubtree
+  exact (h.filter (fun p => !(under q p))).touchParent q
+
+theorem NameWF.removeBelow {fs : FS} (h : NameWF fs) (q : Path) : NameWF (fs.removeBelow q) := by
+  unfold FS.removeBelow; split
+  · exact (h.filter (fun p => !(under q p) || p == q)).modInode _ _
+  · exact h
+
+theorem pathComps_norm (s : Str) (hdd : dotdot ∉ pathComps s) : ∀ c ∈ pathComps s, Norm c := by
+  intro c hc
+  have hc' := hc
+  unfold pathComps at hc
+  simp only [List.mem_filter, decide_eq_true_eq] at hc
+  exact ⟨hc.2.1, hc.2.2, fun e => hdd (by rw [← e]; exact hc'), splitSlash_elems_noSlash s c hc.1⟩
 
 end GA
